@@ -260,6 +260,9 @@ def compare_read(summary, a, b, ignore_usize=False):
         return True
     da, sa, oa = split_read(a)
     db, sb, ob = split_read(b)
+    unm = set(c['name'] for c in summary['classes'] if c.get('modelled') is False)
+    if unm and any(x[0] in unm for x in ob):
+        return True     # the file holds an object of a class the translator could not model: nothing to compare with
     if ignore_usize:
         da.pop('usize', None); db.pop('usize', None)
     if da != db or sa != sb or len(oa) != len(ob):
